@@ -15,4 +15,29 @@ CHECKS = {
           'token types < 2^32 (D9).',
   'technique': 'Rocq proof (induction, invariant over find_from loop) + differential correspondence model/implementation/specification',
  },
+ 'C02': {
+  'text': 'For every program (mode or lookahead pattern) explored, a Coq theorem "for ALL non-empty words over the minterm alphabet the '
+          'compiled automaton accepts token type t iff a pattern of type t matches the whole word" is generated from the automaton the '
+          'implementation compiled and Qed-checked by coqc, by running the verified decision procedure equiv_check (product of '
+          'Brzozowski derivative vectors and state sets) with vm_compute; its soundness (C02_checker_sound) and the lifting from the '
+          'minterm alphabet to all Unicode scalar values (C02_all_strings) are proved once for all automata and patterns. The empty '
+          'word and registered classes are per-dump checks with generic theorems. Strings are unbounded; the set of programs is sampled, '
+          'as the property quantifies.',
+  'design_ref': 'DESIGN.md section 7, C02',
+  'note': 'Trusted: Coq kernel + vm_compute; the minterm partition of all 1,112,064 scalar values computed by the Rust harness from '
+          'the implementation\'s class predicate and from one-pattern scanners of every leaf; Python translation of dumps and ASTs to '
+          'Coq terms; hooks; regex_syntax parser outside the model.',
+  'technique': 'Rocq-verified decision procedure run in the kernel per compiled automaton (certified translation validation) + generic soundness/lifting theorems',
+ },
+ 'C03': {
+  'text': 'Generic Coq theorem C03_minimize_preserves: for every automaton (deterministic or not) with at most 2^group_bits states the '
+          'Gallina transcription of minimizer.rs returns an automaton accepting the same token types for every word, with state 0 '
+          'mapped to state 0 and no more states (proved by partition invariants, stability at loop exit and a quotient/bisimulation '
+          'lemma). Tie to the code: every (input,output) pair the real minimizer produced while building the explored programs gets '
+          'its own Qed-checked theorem "same accepted token types for all words" by the verified checker aut_equiv_check, and the '
+          'transcription is compared with the real minimizer on the same inputs.',
+  'design_ref': 'DESIGN.md section 7, C03',
+  'note': 'Trusted: Coq kernel + vm_compute; minterm partition from the exhaustive sweep; Python translation; hooks.',
+  'technique': 'Rocq proof of the transcribed minimizer (quotient theorem) + per-pair kernel-checked equivalence certificates',
+ },
 }
